@@ -59,6 +59,24 @@ func personTypeB() reflect.Type {
 	return reflect.TypeOf(Person{})
 }
 
+// Money is a struct type that also knows how to print itself (a value-receiver
+// String method): data like any other struct.
+type Money struct {
+	Amount   int64
+	Currency string
+}
+
+func (m Money) String() string { return "MONEY-AS-TEXT" }
+
+// Stamp has a pointer-receiver String method and an error-like sibling.
+type Stamp struct {
+	Unix int64
+	Zone string
+}
+
+func (s *Stamp) String() string { return "STAMP-AS-TEXT" }
+func (s Stamp) Error() string   { return "STAMP-AS-ERROR" }
+
 type fixedType struct {
 	rt     reflect.Type
 	fields []string // exported fields set from Items
@@ -102,6 +120,8 @@ func init() {
 		regT(name, reflect.TypeOf(sample), fields, unexported)
 	}
 	reg("EmbedsPtr", EmbedsPtr{}, []string{"Inner", "Label"}, nil)
+	reg("Money", Money{}, []string{"Amount", "Currency"}, nil)
+	reg("Stamp", Stamp{}, []string{"Unix", "Zone"}, nil)
 	regT("PersonA", personTypeA(), []string{"Name", "Age"}, nil)
 	regT("PersonB", personTypeB(), []string{"Age", "Name", "Email"}, nil)
 	reg("WithHidden", WithHidden{}, []string{"Name", "Age"}, []string{"secret", "hidden"})
@@ -122,6 +142,10 @@ func FixedFields(name string) (exported, unexported []string) {
 // FixedFieldType is the Type of an exported field of a fixed struct.
 func FixedFieldType(name, field string) *Type {
 	switch name + "." + field {
+	case "Money.Amount", "Stamp.Unix":
+		return T(TInt64)
+	case "Money.Currency", "Stamp.Zone":
+		return T(TString)
 	case "WithHidden.Name", "Inner.Title", "EmbedsPtr.Label", "PersonA.Name", "PersonB.Name", "PersonB.Email":
 		return T(TString)
 	case "WithHidden.Age", "Inner.N", "Embeds.Count", "PersonA.Age", "PersonB.Age":
